@@ -190,7 +190,7 @@ class Run:
 
         replay_paths = []
         if real:
-            rdir = VERIF / "replay" / self.pid
+            rdir = Path(os.environ.get("VERIF_REPLAY_DIR", str(VERIF / "replay"))) / self.pid
             rdir.mkdir(parents=True, exist_ok=True)
             seen = {}
             for v in real:
@@ -228,8 +228,9 @@ class Run:
             "wall_s": round(wall, 2),
             "violations": len(real),
         }
-        (VERIF / "evidence").mkdir(exist_ok=True)
-        (VERIF / "evidence" / f"{self.pid}.json").write_text(json.dumps(ev, indent=1, default=_jd) + "\n")
+        evdir = Path(os.environ.get("VERIF_EVIDENCE_DIR", str(VERIF / "evidence")))
+        evdir.mkdir(exist_ok=True, parents=True)
+        (evdir / f"{self.pid}.json").write_text(json.dumps(ev, indent=1, default=_jd) + "\n")
 
         print(f"[{self.pid}] tier={self.tier} seed={self.seed} evaluations={self.evaluations} "
               f"distinct_nontrivial={len(self.nontrivial)} wall={wall:.1f}s")
